@@ -110,7 +110,7 @@ func c10Distinct(n int) []int {
 }
 
 func runC10(c *gen.Ctx) error {
-	reps := 4
+	reps := 6
 	workers := 8
 	if c.Thorough() {
 		reps = 12
@@ -248,7 +248,7 @@ func runC10(c *gen.Ctx) error {
 	add("dupname", []int{0, 0, 0}, [][]int{{0}, {1}, {2}}, []cc.VerifC10Act{{K: "recv"}, resp(0), {K: "recv"}, resp(0), {K: "recv"}, resp(0), exit(0)})
 
 	// 6. random scripts
-	nRandom := 400
+	nRandom := 800
 	if c.Thorough() {
 		nRandom = 4000
 	}
